@@ -60,8 +60,11 @@ def char_boundary(ex, st, v, ln):
     b = slice_of(ex, st, v)
     if b is not None:
         # a view into a backing byte array: boundaries are a property of absolute offsets, shared by every sub-view
-        cba = z3.Function('charb?' + str(b.arr), z3.BitVecSort(64), z3.BoolSort())
-        return (lambda i: cba(b.off + i)), [cba(b.off), cba(b.off + b.len)]
+        # (UTF-8: an offset is a boundary iff it is the end of the text or the byte there is not a continuation byte 10xxxxxx;
+        # a view starts and ends at boundaries by construction - split_at / range indexing are checked before they produce one)
+        def cba(i):
+            return z3.Or(i == b.off + b.len, (z3.Select(b.arr, i) & 0xC0) != 0x80)
+        return (lambda i: cba(b.off + i)), [z3.Or(b.len == 0, cba(b.off))]
     t = strip_refs(ex.to_term(st, v))
     # a half of `s.split_at(mid)`: its boundaries are those of s (shifted by mid for the second half)
     if isinstance(t, tuple) and len(t) >= 3 and t[0] == 'field' and t[2] in (0, 1):
